@@ -1,17 +1,24 @@
 """C18 — DAG Recorder totals do not depend on how the DAG was contracted (DESIGN.md section 4, C18).
 
-prove -> build (harness + profiler sources of the CURRENT tree; extracted model) -> generate timed
-task trees -> run both under every contraction setting -> diff -> independent oracle on the raw
-interval stream delivered by the recorder's hooks.
+prove -> build (harnesses + profiler sources of the CURRENT tree; extracted model) -> generate timed
+task trees -> record them under every contraction setting and three driving orders, diff against the
+extracted model -> independent oracle on the interval stream delivered by the recorder's hooks, itself
+compared with what the generated tree says must have been recorded -> a real MassiveThreads / mtbb
+program recorded on 1, 2, 4 workers -> coverage gates (every contraction policy fired, every incoming
+edge kind seen under every order).
 """
-import glob, json, os, shutil
+import glob, json, os, shutil, subprocess
 import vlib
 
 VF = ["Dag/DagTreeModel.v", "Dag/DagRecordModel.v", "Dag/DagProofs.v"]
 KNOWN_ID = "C18-stat-edges-lost"
+LIST_ID = "C18-stat-matrix-list-mode"
+W_LIST = "4 T S c 1 3 0 T e 3 6 3 w 3 5 0 e 6 7 0"      # workers 0 and 3 of 4
 CMAX_DEFAULT = 1 << 60          # dr_options_default_values.collapse_max of the pinned tree
 PRUNE_DEFAULT = 100000
 EK = ["end", "create", "create_cont", "wait_cont", "other_cont"]
+EKL = {"E": "end", "C": "create", "K": "create_cont", "W": "wait_cont", "O": "other_cont"}
+ORDERS = {0: "work-first", 1: "help-first"}
 
 
 # ------------------------------------------------------------------------------------------
@@ -22,17 +29,38 @@ def build(ctx):
     srcs = sorted(glob.glob(os.path.join(pdir, "*.c")))
     if not srcs:
         raise vlib.BuildError("no profiler sources in " + pdir)
-    harness = os.path.join(vlib.VERIF, "harness", "c18_sim.c")
+    sim = os.path.join(vlib.VERIF, "harness", "c18_sim.c")
+    real = os.path.join(vlib.VERIF, "harness", "c18_real.cc")
     flags = ["-O0", "-g", "-w", "-DMYTH_VERIF", "-I" + pdir]
-    key = vlib.sha(vlib.repo_src_hash(os.path.join("src", "profiler")), vlib.file_sha(harness), " ".join(flags))[:16]
+    lib = vlib.build_lib()
+    rflags = vlib.lib_cflags() + ["-O0", "-g", "-std=c++11", "-DTO_MTHREAD_NATIVE", "-I" + pdir]
+    key = vlib.sha(vlib.repo_src_hash(os.path.join("src", "profiler")), vlib.repo_src_hash(os.path.join("src", "mtbb")),
+                   vlib.file_sha(sim), vlib.file_sha(real), vlib.file_sha(lib), " ".join(flags), " ".join(rflags))[:16]
     d = os.path.join(vlib.BUILD, "C18", "bin", key)
-    exe = os.path.join(d, "c18_sim")
+    exe, rexe = os.path.join(d, "c18_sim"), os.path.join(d, "c18_real")
     with vlib.Lock("c18-" + key):
-        if not os.path.exists(exe):
-            vlib.cc(exe + ".tmp", [harness] + srcs, flags=flags, libs=["-lpthread"])
+        if not (os.path.exists(exe) and os.path.exists(rexe)):
+            os.makedirs(d, exist_ok=True)
+            procs, objs = [], []
+            for sfile in srcs:           # the recorder's translation units are C; the real program is C++
+                o = os.path.join(d, os.path.basename(sfile)[:-2] + ".o")
+                objs.append(o)
+                procs.append((sfile, subprocess.Popen(["gcc"] + flags + ["-c", sfile, "-o", o],
+                                                      stdout=subprocess.PIPE, stderr=subprocess.STDOUT, text=True)))
+            errs = []
+            for sfile, pr in procs:
+                out, _ = pr.communicate()
+                if pr.returncode != 0:
+                    errs.append(sfile + ":\n" + out[-1500:])
+            if errs:
+                raise vlib.BuildError("profiler sources do not compile:\n" + "\n".join(errs))
+            vlib.cc(exe + ".tmp", [sim] + objs, flags=flags, libs=["-lpthread"])
+            vlib.cc(rexe + ".tmp", [real], flags=rflags, libs=objs + [lib, "-lpthread", "-ldl", "-lrt"], cxx=True)
             os.rename(exe + ".tmp", exe)
+            os.rename(rexe + ".tmp", rexe)
             vlib.prune_cache(os.path.join(vlib.BUILD, "C18", "bin"), keep=4)
     drv = vlib.build_driver("C18", "Extract_C18.v", "driver_C18.ml", VF[:2])
+    ctx.real_exe = rexe
     return exe, drv
 
 
@@ -40,8 +68,9 @@ def build(ctx):
 # generator: a random fork-join program, its "parallel" timing and its worker assignment
 # ------------------------------------------------------------------------------------------
 class Gen:
-    def __init__(self, r, maxdepth, fan, nw, budget, sticky, p_other, zero_dur):
+    def __init__(self, r, maxdepth, fan, nw, budget, sticky, p_other, zero_dur, wset=None):
         self.r, self.maxdepth, self.fan, self.nw = r, maxdepth, fan, nw
+        self.wset = wset or list(range(nw))     # the workers that take part (may be a sparse subset)
         self.budget, self.sticky, self.p_other, self.zero_dur = budget, sticky, p_other, zero_dur
 
     # structure: ('T', items) ; ('S'|'B', items) ; ('o',) ; ('c', task)
@@ -93,7 +122,7 @@ class Gen:
         return self.r.choice([0, 0, 0, 1, 1, 2, 5])
 
     def nextw(self, w):
-        return w if self.r.below(100) < self.sticky else self.r.below(self.nw)
+        return w if self.r.below(100) < self.sticky else self.r.choice(self.wset)
 
     # timing: out = token list; returns (end time of the task, worker of its last interval)
     def emit_task(self, t, start, w, out):
@@ -132,6 +161,18 @@ class Gen:
         return max(e, child_end) + self.gap(), self.nextw(cw)
 
 
+def worker_set(r, nw):
+    """the workers that take part in the execution: all of them, or a sparse subset of 0..nw-1 (the
+    recorder is told nw workers and keeps its per-worker state in an array indexed by worker id)"""
+    x = r.below(10)
+    if x < 5 or nw == 1:
+        return list(range(nw))
+    if x < 7 and nw >= 3:
+        return r.choice([[0, nw - 1], [nw - 2], [1, nw - 1], [nw - 1]])
+    ws = [w for w in range(nw) if r.chance(1, 2)]
+    return ws or [r.below(nw)]
+
+
 def gen_tree(r, size_class):
     """returns (nw, tree token list)"""
     nw = r.rng(1, 8)
@@ -139,10 +180,11 @@ def gen_tree(r, size_class):
     fan = r.choice([0, 1, 2, 2, 3, 3, 4, 6])
     budget = {0: 12, 1: 60, 2: 250, 3: 1200}[size_class]
     sticky = r.choice([100, 100, 95, 80, 50, 0])
-    g = Gen(r, maxdepth, fan, nw, budget, sticky, p_other=r.choice([0, 0, 1, 2, 4]), zero_dur=r.choice([0, 1, 3, 10]))
+    wset = worker_set(r, nw)
+    g = Gen(r, maxdepth, fan, nw, budget, sticky, p_other=r.choice([0, 0, 1, 2, 4]), zero_dur=r.choice([0, 1, 3, 10]), wset=wset)
     t = g.task(0)
     out = []
-    g.emit_task(t, r.choice([1, 1, 7, 1000, 1 << 40]), r.below(nw), out)
+    g.emit_task(t, r.choice([1, 1, 7, 1000, 1 << 40]), r.choice(wset), out)
     return nw, out
 
 
@@ -169,83 +211,209 @@ def tree_stats(toks):
 
 
 def settings_for(r, toks):
-    """contraction settings for one tree: (name, umin, cmax, nct, prune, cmc, chk).
-    chk >= 10: the harness keeps the library's default thresholds (only totals are compared)."""
+    """contraction settings for one tree: (name, umin, cmax, nct, prune, cmc, chk, order, array).
+    chk >= 10: the harness keeps the library's default thresholds (only totals are compared).
+    order: 0 work-first, 1 help-first, >= 2 seeded random interleaving of the tasks.
+    array: dr_options.worker_specific_state_array (0 = the library's default: state per OS thread,
+    the simulator then runs every worker on a thread of its own)."""
     n, span, _ = tree_stats(toks)
-    S = [("none", 0, 0, 0, PRUNE_DEFAULT, 0, 0),
-         ("none-chk", 0, 0, 0, PRUNE_DEFAULT, 0, 1),
-         ("defaults", 0, CMAX_DEFAULT, 0, PRUNE_DEFAULT, 0, 10),
-         ("cmax-inf-chk", 0, 1 << 62, 0, PRUNE_DEFAULT, 0, 1),
-         ("all", 1 << 62, 0, 0, PRUNE_DEFAULT, 0, 0)]
+    rnd = lambda: r.choice([0, 1, r.rng(2, 1 << 20)])
+    arr = lambda: 0 if r.chance(1, 4) else 1
+    S = [("none", 0, 0, 0, PRUNE_DEFAULT, 0, 0, 0, 1),
+         ("none-hf", 0, 0, 0, PRUNE_DEFAULT, 0, 0, 1, 1),
+         ("none-list", 0, 0, 0, PRUNE_DEFAULT, 0, 0, rnd(), 0),
+         ("none-chk", 0, 0, 0, PRUNE_DEFAULT, 0, 1, r.rng(2, 1 << 20), 1),
+         ("defaults", 0, CMAX_DEFAULT, 0, PRUNE_DEFAULT, 0, 10, rnd(), arr()),
+         ("cmax-inf-chk", 0, 1 << 62, 0, PRUNE_DEFAULT, 0, 1, 1, 1),
+         ("all", 1 << 62, 0, 0, PRUNE_DEFAULT, 0, 0, rnd(), arr())]
     S.append(("span", r.choice([0, 0, 1, r.rng(0, span + 1), r.rng(0, span // 4 + 1)]),
-              r.choice([0, 1, r.rng(0, span + 1), r.rng(0, span // 2 + 1), span + 1]), 0, PRUNE_DEFAULT, 0, 0))
-    S.append(("cmax-chk", 0, r.choice([1, 2, r.rng(0, span + 1), r.rng(0, span // 3 + 1)]), 0, PRUNE_DEFAULT, 0, 1))
-    S.append(("count", 0, 0, 0, PRUNE_DEFAULT, r.choice([1, 2, 3, 5, 10, r.rng(1, n + 2), n, n + 1]), 0))
-    S.append(("count2", r.rng(0, 3), CMAX_DEFAULT, 0, PRUNE_DEFAULT, r.choice([2, 4, 8, r.rng(1, n + 2)]), 0))
+              r.choice([0, 1, r.rng(0, span + 1), r.rng(0, span // 2 + 1), span + 1]), 0, PRUNE_DEFAULT, 0, 0, rnd(), arr()))
+    S.append(("umin", r.choice([1, 2, r.rng(1, span + 1), r.rng(1, span // 4 + 1), r.rng(1, span // 16 + 1)]), 0, 0, PRUNE_DEFAULT, 0, 0,
+              rnd(), arr()))
+    S.append(("cmax-chk", 0, r.choice([1, 2, r.rng(0, span + 1), r.rng(0, span // 3 + 1)]), 0, PRUNE_DEFAULT, 0, 1, rnd(), 1))
+    S.append(("count", 0, 0, 0, PRUNE_DEFAULT, r.choice([1, 2, 3, 5, 10, r.rng(1, n + 2), n, n + 1]), 0, rnd(), arr()))
+    S.append(("count2", r.rng(0, 3), CMAX_DEFAULT, 0, PRUNE_DEFAULT, r.choice([2, 4, 8, r.rng(1, n + 2)]), 0, rnd(), 1))
     S.append(("target", 0, 0, r.choice([1, 2, 3, 5, r.rng(1, 2 * n + 2), r.rng(1, n + 1)]), r.choice([0, 0, 1, 3, 10, r.rng(0, 2 * n + 1)]), 0,
-              r.choice([0, 1])))
-    S.append(("target2", r.rng(0, 5), CMAX_DEFAULT, r.choice([1, 4, 16, r.rng(1, 2 * n + 2)]), r.choice([0, 5, 30]), r.choice([0, 3]), 0))
+              r.choice([0, 1]), rnd(), 1))
+    S.append(("target2", r.rng(0, 5), CMAX_DEFAULT, r.choice([1, 4, 16, r.rng(1, 2 * n + 2)]), r.choice([0, 5, 30]), r.choice([0, 3]), 0,
+              rnd(), arr()))
+    S.append(("target3", 0, 0, r.choice([r.rng(2, n + 2), r.rng(n // 4 + 1, n + 2), r.rng(n // 2 + 1, 2 * n + 2)]), r.choice([0, r.rng(0, n + 1)]),
+              0, 0, rnd(), 1))
     return S
 
 
+def policy_class(s):
+    """which contraction rule of dr_summarize_section_or_task a setting exercises"""
+    name, umin, cmax, nct, prune, cmc, chk, order, array = s
+    if nct:
+        return "target(node_count_target/prune_threshold)"
+    if cmc:
+        return "count(collapse_max_count)"
+    if umin and cmax:
+        return "span(uncollapse_min+collapse_max)"
+    if umin:
+        return "span(uncollapse_min)"
+    if cmax:
+        return "span(collapse_max)"
+    return "none"
+
+
 def case_line(nw, sets, toks):
-    return " ".join([str(nw), str(len(sets))] + ["%d %d %d %d %d %d" % s[1:] for s in sets] + toks)
+    return " ".join([str(nw), str(len(sets))] + ["%d %d %d %d %d %d %d %d" % s[1:] for s in sets] + toks)
+
+
+# ------------------------------------------------------------------------------------------
+# what the generated tree says must be recorded (from the INPUT tokens only)
+# ------------------------------------------------------------------------------------------
+def expected_from_tokens(toks):
+    """per-task event lists exactly as the recorder's hooks must deliver them (tasks numbered in program
+    order), and the totals by plain counting.  Mirrors only the calling convention of the simulator:
+    a section is opened by dr_begin_section unless it sits directly in a task, is written 'S' and starts
+    with a create (or is empty), in which case the first create / the wait opens it."""
+    pos = [0]
+    tasks = []
+    tot = {"work": 0, "c": 0, "w": 0, "o": 0, "e": 0}
+
+    def leaf():
+        s, e, w = int(toks[pos[0]]), int(toks[pos[0] + 1]), int(toks[pos[0] + 2])
+        pos[0] += 3
+        return s, e, w
+
+    def task():                      # after 'T'; returns (task id, end time of its end interval)
+        tid = len(tasks)
+        tasks.append(["T@%d" % tid])
+        st = {"pend": 0, "last": "C"}          # begin_section calls pending, kind of the incoming edge
+
+        def emit(kind, lf, extra=""):
+            tasks[tid].extend(["B@%d" % tid] * st["pend"])
+            st["pend"] = 0
+            tasks[tid].append("%s:%d:%d:%d:%s@%d%s" % (kind, lf[0], lf[1], lf[2], st["last"], tid, extra))
+            tot["work"] += lf[1] - lf[0]
+            tot[kind] += 1
+
+        def section(tag, under_task):
+            # look ahead: first token of the section body
+            first = toks[pos[0]]
+            explicit = tag == "B" or not under_task or first not in ("c", "w")
+            if explicit:
+                st["pend"] += 1
+            child_end = None
+            while True:
+                t = toks[pos[0]]; pos[0] += 1
+                if t == "w":
+                    lf = leaf()
+                    emit("w", lf)
+                    tasks[tid].append("rw@%d" % tid)
+                    st["last"] = "E" if (child_end is not None and child_end > lf[1]) else "W"
+                    return
+                if t == "o":
+                    emit("o", leaf()); tasks[tid].append("ro@%d" % tid); st["last"] = "O"
+                elif t == "c":
+                    lf = leaf()
+                    assert toks[pos[0]] == "T"; pos[0] += 1
+                    emit("c", lf, ">%d" % len(tasks))      # tasks are numbered in program order
+                    cid, cend = task()
+                    child_end = cend if child_end is None else max(child_end, cend)
+                    tasks[tid].append("rc@%d" % tid); st["last"] = "K"
+                else:
+                    section(t, False)
+
+        while True:
+            t = toks[pos[0]]; pos[0] += 1
+            if t == "e":
+                lf = leaf()
+                emit("e", lf)
+                return tid, lf[1]
+            if t == "o":
+                emit("o", leaf()); tasks[tid].append("ro@%d" % tid); st["last"] = "O"
+            else:
+                section(t, True)
+
+    assert toks[0] == "T"
+    pos[0] = 1
+    task()
+    nodes = [tot["c"], tot["w"], tot["o"], tot["e"]]
+    return tasks, {"work": tot["work"], "nodes": nodes, "edges": [tot["c"], tot["c"], tot["c"], tot["w"], tot["o"]],
+                   "n": sum(nodes)}
 
 
 # ------------------------------------------------------------------------------------------
 # independent oracle: the property itself, from the raw interval stream of the hooks
 # ------------------------------------------------------------------------------------------
+def split_events(evs):
+    """hook events -> {task id: [events]} (every event is tagged with the task the simulator was driving)"""
+    per = {}
+    for tok in evs:
+        tid = int(tok.split("@")[1].split(">")[0])
+        per.setdefault(tid, []).append(tok)
+    return per
+
+
 def oracle_dag(evs):
-    """rebuild the explicit DAG from the hook events; returns dict(work, crit, nodes[4], edges[5], n)"""
-    tasks = []          # stack of dicts: prev (edges into the next interval), secs (stack of lists of created-task records)
+    """rebuild the explicit DAG from the hook events, whatever the order in which the tasks were driven;
+    returns dict(work, crit, nodes[4], edges[5], n, ek_errors, ek_seen)"""
+    per = split_events(evs)
     nodes = {"c": 0, "w": 0, "o": 0, "e": 0}
     edges = dict.fromkeys(EK, 0)
     dist = []
-    work = 0
-    pending_child = None
-    for tok in evs:
-        if tok == "T":
-            tasks.append({"prev": [pending_child] if pending_child is not None else [], "secs": [], "rec": None})
-            pending_child = None
-        elif tok == "B":
-            tasks[-1]["secs"].append([])
-        elif tok in ("rc", "rw", "ro"):
-            pass
-        else:
-            k, s, e, w = tok.split(":")
+    st = {"work": 0}
+    ek_errors, ek_seen = [], {}
+    visited = set()
+
+    def run_task(tid, ins):
+        """returns (node id of the end interval, its end time)"""
+        if tid in visited or tid not in per:
+            raise ValueError("task %d created twice or never started" % tid)
+        visited.add(tid)
+        prev, want = ins, "C"
+        secs = []
+        for tok in per[tid]:
+            head = tok.split("@")[0]
+            if head == "T" or head in ("rc", "rw", "ro"):
+                continue
+            if head == "B":
+                secs.append([])
+                continue
+            k, s, e, w, ek = head.split(":")
             s, e = int(s), int(e)
-            t = tasks[-1]
             v = len(dist)
             base = 0
-            for (u, ek) in t["prev"]:
-                edges[ek] += 1
+            for (u, kind) in prev:
+                edges[kind] += 1
                 base = max(base, dist[u])
             dist.append(base + (e - s))
-            work += e - s
+            st["work"] += e - s
             nodes[k] += 1
+            ek_seen[ek] = ek_seen.get(ek, 0) + 1
+            if ek != want:
+                ek_errors.append("interval %s of task %d: incoming edge recorded as %s, expected %s"
+                                 % (head, tid, EKL.get(ek, ek), EKL[want]))
             if k == "o":
-                t["prev"] = [(v, "other_cont")]
+                prev, want = [(v, "other_cont")], "O"
             elif k == "c":
-                if not t["secs"]:
-                    t["secs"].append([])
-                rec = {"end": None}
-                t["secs"][-1].append(rec)
-                t["prev"] = [(v, "create_cont")]
-                pending_child = (v, "create")
-                t["childrec"] = rec
+                if not secs:
+                    secs.append([])
+                child = int(tok.split(">")[1])
+                cend = run_task(child, [(v, "create")])
+                secs[-1].append(cend)
+                prev, want = [(v, "create_cont")], "K"
             elif k == "w":
-                if not t["secs"]:
-                    t["secs"].append([])
-                sec = t["secs"].pop()
-                t["prev"] = [(v, "wait_cont")] + [(c["end"], "end") for c in sec]
+                if not secs:
+                    secs.append([])
+                sec = secs.pop()
+                prev = [(v, "wait_cont")] + [(c[0], "end") for c in sec]
+                want = "E" if any(c[1] > e for c in sec) else "W"
             elif k == "e":
-                tasks.pop()
-                if tasks:
-                    tasks[-1]["childrec"]["end"] = v
+                return (v, e)
             else:
                 raise ValueError("bad interval kind " + k)
-    return {"work": work, "crit": max(dist) if dist else 0, "nodes": [nodes[x] for x in "cwoe"],
-            "edges": [edges[x] for x in EK], "n": len(dist)}
+        raise ValueError("task %d has no end interval" % tid)
+
+    run_task(0, [])
+    if visited != set(per):
+        raise ValueError("events of tasks that nobody created: %s" % sorted(set(per) - visited)[:5])
+    return {"work": st["work"], "crit": max(dist) if dist else 0, "nodes": [nodes[x] for x in "cwoe"],
+            "edges": [edges[x] for x in EK], "n": len(dist), "ek_errors": ek_errors, "ek_seen": ek_seen}
 
 
 def parse_A(seg):
@@ -259,14 +427,15 @@ def parse_A(seg):
 
 
 def split_impl(line):
-    """impl line -> list of (A-text, stat dict, events) per setting"""
+    """impl line -> list of (A-text, stat dict, events, cov dict) per setting"""
     res = []
     for seg in line.split(" | "):
         parts = seg.split(" ; ")
         A = parts[0].strip()
         st = parse_A(parts[1]) if len(parts) > 1 else {}
         evs = parts[2].split()[1:] if len(parts) > 2 else []
-        res.append((A, st, evs))
+        cov = parse_A(parts[3]) if len(parts) > 3 else {}
+        res.append((A, st, evs, cov))
     return res
 
 
@@ -274,27 +443,54 @@ def ints(s):
     return [int(x) for x in s.split(",")]
 
 
-def oracle_case(sets, impl_line, full_oc=False, full_end=False):
+LIST_NOTE = "list mode with a sparse set of participating workers: .stat edge matrices mis-indexed (candidate defect C18-stat-matrix-list-mode)"
+
+
+def oracle_case(sets, impl_line, full_oc=False, full_end=False, toks=None, nw=None):
     """None if the property holds on this case's implementation output, else (message, known).
     full_oc / full_end: the library was probed to count other_cont / end edges completely, so these
-    kinds are demanded exactly too (otherwise they are the listed finding: may be lost, never invented)."""
+    kinds are demanded exactly too (otherwise they are the listed finding: may be lost, never invented).
+    toks: the generated tree; the recorder's stream is compared with what the tree says must be recorded."""
     segs = split_impl(impl_line)
     if len(segs) != len(sets):
         return ("implementation produced %d results for %d settings: %s" % (len(segs), len(sets), impl_line[:200]), False)
-    ref = None
     others_lost = None
-    for (name, *_), (A, st, evs) in zip(sets, segs):
+    exp_tasks, exp_tot = expected_from_tokens(toks) if toks is not None else (None, None)
+    used = sorted(set(int(toks[j + 3]) for j in range(len(toks)) if toks[j] in ("o", "c", "w", "e"))) if toks is not None else []
+    for sfull, (A, st, evs, cov) in zip(sets, segs):
+        name = sfull[0]
+        # candidate defect C18-stat-matrix-list-mode (notes/C18.md): without worker_specific_state_array the report sizes its
+        # worker x worker edge matrices by the NUMBER of participating workers but indexes them by worker id; with a
+        # participating worker whose id exceeds that number the per-kind totals are mis-attributed (or the heap is overrun).
+        # Guarded exactly there: list mode and max participating id > number of participating workers.
+        sparse_list = len(sfull) > 8 and sfull[8] == 0 and used and max(used) > len(used)
         a = parse_A(A)
         if a.get("rc") != "0":
+            if sparse_list and a.get("rc", "").startswith("sig"):
+                others_lost = others_lost or LIST_NOTE
+                continue
             return ("setting %s: the recording run died (%s)" % (name, A[:80]), False)
+        # the stream the recorder delivered against the input
+        if exp_tasks is not None:
+            per = split_events(evs)
+            if sorted(per) != list(range(len(exp_tasks))):
+                return ("setting %s: the hooks reported %d tasks, the program has %d" % (name, len(per), len(exp_tasks)), False)
+            for tid, want in enumerate(exp_tasks):
+                if per[tid] != want:
+                    k = next((i for i in range(min(len(want), len(per[tid]))) if want[i] != per[tid][i]), min(len(want), len(per[tid])))
+                    return ("setting %s: task %d: the recorder's hooks delivered %s where the program did %s (event %d of %d/%d)"
+                            % (name, tid, per[tid][k] if k < len(per[tid]) else "nothing", want[k] if k < len(want) else "nothing",
+                               k, len(per[tid]), len(want)), False)
         try:
             o = oracle_dag(evs)
         except Exception as e:      # malformed stream
-            return ("setting %s: hook stream not well nested (%s)" % (name, e), False)
-        if ref is None:
-            ref = (name, evs, o)
-        elif evs != ref[1]:
-            return ("setting %s: the interval stream differs from the one under %s" % (name, ref[0]), False)
+            return ("setting %s: hook stream not well formed (%s)" % (name, e), False)
+        if o["ek_errors"]:
+            return ("setting %s: %s" % (name, o["ek_errors"][0]), False)
+        if exp_tot is not None:
+            for key in ("work", "nodes", "edges", "n"):
+                if o[key] != exp_tot[key]:
+                    return ("setting %s: the DAG rebuilt from the recorder's stream has %s=%s, the program has %s" % (name, key, o[key], exp_tot[key]), False)
         t1, tinf = int(a["t1"]), int(a["tinf"])
         nodes, edges = ints(a["nodes"]), ints(a["edges"])
         if t1 != o["work"]:
@@ -318,20 +514,26 @@ def oracle_case(sets, impl_line, full_oc=False, full_end=False):
         if int(st["dagnodes"]) != o["n"] + o["nodes"][1] + o["nodes"][0] + 1:
             return ("setting %s: .stat dag nodes = %s, expected %d" % (name, st["dagnodes"], o["n"] + o["nodes"][1] + o["nodes"][0] + 1), False)
         se = ints(st["sedges"])
+        if sparse_list:
+            if se != o["edges"]:
+                others_lost = others_lost or LIST_NOTE
+            continue
+        if min(se) < 0:
+            return ("setting %s: the edge matrices of the .stat report cannot be read with its own n_workers (P) = %s"
+                    % (name, cov.get("P")), False)
         if se[1:4] != o["edges"][1:4]:
-            return ("setting %s: .stat edge totals (create,create_cont,wait_cont)=%s, in the uncontracted DAG %s"
-                    % (name, se[1:4], o["edges"][1:4]), False)
-        # candidate defects C18-stat-edges-lost (see notes/C18.md), guarded exactly like the _partial theorems:
-        #  - other_cont: dr_accumulate_stats never counts other -> next, so these edges vanish with every contracted
-        #    subgraph (and the root's logical count is always 0);
-        #  - end: the end edges of the tasks created in a contracted *section* are attributed to its parent's summary,
-        #    which the report does not use while the parent is materialised.
+            return ("setting %s: .stat edge totals (create,create_cont,wait_cont)=%s, in the uncontracted DAG %s (n_workers (P) = %s, workers told to dr_start: %s)"
+                    % (name, se[1:4], o["edges"][1:4], cov.get("P"), nw), False)
+        # finding C18-stat-edges-lost (notes/C18.md), guarded exactly like the _partial theorems while it is present:
+        #  - other_cont: dr_accumulate_stats never counted other -> next;
+        #  - end: the end edges of the tasks created in a contracted *section* were attributed to its parent's summary.
         # The other kinds are exact; these two may only be lost, never invented, and never when nothing is contracted.
         if edges[4] != (o["edges"][4] if full_oc else 0):
             return ("setting %s: root other_cont count %d, expected %d" % (name, edges[4], o["edges"][4] if full_oc else 0), False)
         for k, full in ((0, full_end), (4, full_oc)):
             if full and se[k] != o["edges"][k]:
-                return ("setting %s: .stat reports %d %s edges, the uncontracted DAG has %d" % (name, se[k], EK[k], o["edges"][k]), False)
+                return ("setting %s: .stat reports %d %s edges, the uncontracted DAG has %d (n_workers (P) = %s, workers told to dr_start: %s)"
+                        % (name, se[k], EK[k], o["edges"][k], cov.get("P"), nw), False)
             if se[k] > o["edges"][k]:
                 return ("setting %s: .stat reports %d %s edges, the DAG has only %d" % (name, se[k], EK[k], o["edges"][k]), False)
             if int(st["mat"]) == int(st["dagnodes"]) and se[k] != o["edges"][k]:
@@ -352,9 +554,10 @@ def totals_only(A):
     return " ".join(w for w in A.split() if not w.startswith(("cur=", "mat=")))
 
 
-def correspondence(sets, impl_line, model_line):
+def correspondence(sets, impl_line, model_line, toks=None):
     """list of messages where the extracted model and the implementation disagree"""
     bad = []
+    used = sorted(set(int(toks[j + 3]) for j in range(len(toks)) if toks[j] in ("o", "c", "w", "e"))) if toks else []
     segs = split_impl(impl_line)
     mparts = model_line.split(" # ")
     msegs = mparts[0].split(" | ")
@@ -366,6 +569,9 @@ def correspondence(sets, impl_line, model_line):
         M = " ; ".join(x.strip() for x in M.split(" ; ")[:2])
         if s[6] >= 10:      # library defaults: the thresholds are not part of the model
             A, M = totals_only(A.split(" ; ")[0]), totals_only(M.split(" ; ")[0])
+        elif len(s) > 8 and s[8] == 0 and used and max(used) > len(used):   # guarded: candidate defect C18-stat-matrix-list-mode
+            A = " ".join(w for w in A.split() if not w.startswith("sedges="))
+            M = " ".join(w for w in M.split() if not w.startswith("sedges="))
         if A != M:
             bad.append("setting %s: impl [%s] model [%s]" % (s[0], A, M))
     # model-internal consistency (statements of the theorems, evaluated): totals under arbitrary
@@ -397,7 +603,7 @@ def run_cases(exe, drv, lines, workdir, variant=(False, False)):
 # without touching any option (collapse_max = 2^60) against the uncontracted run
 W_END = "2 T S c 1 3 0 T e 3 6 0 w 3 5 0 e 6 7 1"
 W_OTHER = "2 T S c 1 3 0 T o 3 4 1 e 4 6 1 w 3 5 0 e 6 7 0"
-W_SETS = [("none", 0, 0, 0, PRUNE_DEFAULT, 0, 0), ("defaults", 0, CMAX_DEFAULT, 0, PRUNE_DEFAULT, 0, 10)]
+W_SETS = [("none", 0, 0, 0, PRUNE_DEFAULT, 0, 0, 0, 1), ("defaults", 0, CMAX_DEFAULT, 0, PRUNE_DEFAULT, 0, 10, 0, 1)]
 
 
 def probe(exe, workdir):
@@ -408,10 +614,10 @@ def probe(exe, workdir):
     impl, rc, raw = vlib.run_lines([exe, workdir], lines, timeout=120)
     msgs = []
     try:
-        e_none, e_def = [ints(st["sedges"]) for (A, st, evs) in split_impl(impl[0])]
+        e_none, e_def = [ints(st["sedges"]) for (A, st, evs, cov) in split_impl(impl[0])]
         o_segs = split_impl(impl[1])
         o_root = ints(parse_A(o_segs[1][0])["edges"])
-        o_none, o_def = [ints(st["sedges"]) for (A, st, evs) in o_segs]
+        o_none, o_def = [ints(st["sedges"]) for (A, st, evs, cov) in o_segs]
     except (KeyError, IndexError, ValueError):
         return False, False, ["probe could not be evaluated: " + raw[:300]]
     fe = e_def[0] == e_none[0] == 1
@@ -448,12 +654,138 @@ def corpus_cases(ctx):
     return res
 
 
+# ------------------------------------------------------------------------------------------
+# a real recording: harness/c18_real.cc on the real scheduler, real clock
+# ------------------------------------------------------------------------------------------
+REAL_N = 8
+REAL_SETTINGS = [("none", 0, 0, 0, PRUNE_DEFAULT, 0), ("defaults", 0, CMAX_DEFAULT, 0, PRUNE_DEFAULT, 0),
+                 ("all", 1 << 62, 0, 0, PRUNE_DEFAULT, 0), ("umin", 20000, 0, 0, PRUNE_DEFAULT, 0),
+                 ("count", 0, 0, 0, PRUNE_DEFAULT, 12), ("target", 0, 0, 40, 0, 0), ("target-thr", 0, 0, 15, 100, 0)]
+
+
+def fibv(n):
+    a, b = 0, 1
+    for _ in range(n):
+        a, b = b, a + b
+    return a
+
+
+def read_stat(path):
+    """(dict of the scalar lines, [sum of each of the five edge matrices], P) of a .stat file"""
+    txt = open(path, errors="replace").read()
+    d = {}
+    for l in txt.split("\n"):
+        if "=" in l and not l.startswith("***"):
+            k, v = l.split("=", 1)
+            d[k.strip()] = v.strip()
+    P = int(d.get("n_workers (P)", "-1"))
+    sums = []
+    for h in ("end-parent edges:", "create-child edges:", "create-cont edges:", "wait-cont edges:", "other-cont edges:"):
+        i = txt.find(h)
+        if i < 0 or P < 0:
+            sums.append(-1)
+            continue
+        nums = txt[i + len(h):].split()[:(P + 1) * (P + 1)]
+        try:
+            sums.append(sum(int(x) for x in nums) if len(nums) == (P + 1) * (P + 1) else -1)
+        except ValueError:
+            sums.append(-1)
+    return d, sums, P
+
+
+def real_run(rexe, workdir, n, setting, workers, array, tag):
+    """one real recording; returns (message or None, observation dict)"""
+    name, umin, cmax, nct, prune, cmc = setting
+    prefix = os.path.join(workdir, "real_%s_%d" % (tag, os.getpid()))
+    cmd = [rexe, str(n), str(umin), str(cmax), str(nct), str(prune), str(cmc), str(array), prefix]
+    env = dict(os.environ, MYTH_NUM_WORKERS=str(workers))
+    for k in list(env):
+        if k.startswith(("DAG_RECORDER", "DR_")):
+            del env[k]
+    rc, out = vlib.sh(cmd, timeout=60, env=env)
+    what = "real recording fibx(%d), %d workers, setting %s, worker state %s" % (n, workers, name, "array" if array else "list")
+    obs = {"cmd": " ".join(cmd[1:8]), "workers": workers, "setting": name, "rc": rc, "out": out[-400:]}
+    try:
+        if rc != 0:
+            return what + ": the run died (rc=%s) %s" % (rc, out[-200:].strip()), obs
+        line = [l for l in out.split("\n") if l.startswith("prog ")][-1]
+        prog, root = [parse_A(x) for x in line.split(" ; ")]
+        d, sums, P = read_stat(prefix + ".stat")
+        os.unlink(prefix + ".stat")
+    except (IndexError, OSError, ValueError) as e:
+        return what + ": no usable output (%s) %s" % (e, out[-200:].strip()), obs
+    c, w, o = int(prog["creates"]), int(prog["waits"]), int(prog["others"])
+    obs.update({"prog": [c, w, o, int(prog["tasks"])], "root_nodes": root["nodes"], "root_edges": root["edges"], "stat_edges": sums,
+                "mat": int(root["cur"]), "P": P})
+    if int(prog["value"]) != fibv(n) or int(prog["tasks"]) != c:
+        return what + ": the program itself computed value %s with %s tasks for %d creations" % (prog["value"], prog["tasks"], c), obs
+    if ints(root["nodes"]) != [c, w, o, c + 1]:
+        return what + ": root interval counts (create,wait,other,end)=%s, the program did %s" % (root["nodes"], [c, w, o, c + 1]), obs
+    if ints(root["edges"]) != [c, c, c, w, o]:
+        return what + ": root edge counts (end,create,create_cont,wait_cont,other_cont)=%s, the program's DAG has %s" % (root["edges"], [c, c, c, w, o]), obs
+    obs["list_mode_sparse"] = (not array) and P < workers
+    if sums != [c, c, c, w, o] and not obs["list_mode_sparse"]:     # guarded: candidate defect C18-stat-matrix-list-mode
+        return what + ": .stat edge totals %s, the program's DAG has %s (n_workers (P) = %d)" % (sums, [c, c, c, w, o], P), obs
+    if [int(d.get("create_task", -1)), int(d.get("wait_tasks", -1)), int(d.get("end_task", -1))] != [c, w, c + 1]:
+        return what + ": .stat create/wait/end lines %s/%s/%s, the program did %d/%d/%d" % (
+            d.get("create_task"), d.get("wait_tasks"), d.get("end_task"), c, w, c + 1), obs
+    if int(d.get("dag nodes", -1)) != (2 * c + w + o + 1) + w + c + 1:
+        return what + ": .stat dag nodes %s, expected %d" % (d.get("dag nodes"), (2 * c + w + o + 1) + w + c + 1), obs
+    if int(d.get("work (T1)", -1)) != int(root["t1"]) or int(d.get("critical_path (T_inf)", -1)) != int(root["tinf"]):
+        return what + ": .stat work/T_inf %s/%s, root summary %s/%s" % (d.get("work (T1)"), d.get("critical_path (T_inf)"), root["t1"], root["tinf"]), obs
+    if int(root["tinf"]) > int(root["t1"]):
+        return what + ": critical path %s exceeds work %s" % (root["tinf"], root["t1"]), obs
+    if (array and P != workers) or not (1 <= P <= workers):
+        return what + ": the report says n_workers (P) = %d" % P, obs
+    obs["stat_edges_ok"] = sums == [c, c, c, w, o]
+    return None, obs
+
+
+def real_recordings(ctx, full):
+    rexe = ctx.real_exe
+    workdir = os.path.join(ctx.dir, "run")
+    os.makedirs(workdir, exist_ok=True)
+    runs, fails, counts, mats = 0, [], set(), {}
+    sparse, sparse_wrong = 0, 0
+    k = 0
+    for workers in (1, 2, 4):
+        for st in REAL_SETTINGS:
+            for array in ((0, 1) if ctx.thorough else (k % 2,)):
+                k += 1
+                msg, obs = real_run(rexe, workdir, REAL_N, st, workers, array, "%d" % k)
+                runs += 1
+                if msg:
+                    fails.append((msg, obs))
+                if obs.get("list_mode_sparse"):
+                    sparse += 1
+                    sparse_wrong += not obs.get("stat_edges_ok", True)
+                if "prog" in obs:
+                    counts.add(tuple(obs["prog"]))
+                    mats.setdefault(st[0], set()).add(obs["mat"])
+    if not fails and len(counts) > 1:
+        fails.append(("real recording: the program's own counts differ between runs: %s" % sorted(counts), {}))
+    ctx.cov["real_recording"] = {
+        "program": "harness/c18_real.cc fibx(%d): mtbb::task_group, nested groups tg1.run; tg2.run; tg2.wait; tg1.wait, "
+                   "other intervals around myth_yield, public macro layer, real clock" % REAL_N,
+        "runs": runs, "workers": [1, 2, 4], "settings": [s[0] for s in REAL_SETTINGS], "failures": len(fails),
+        "program_counts(create,wait,other,tasks)": sorted(counts),
+        "list_mode_runs_in_which_not_all_workers_took_part": sparse, "of_which_with_wrong_stat_edge_totals(guarded)": sparse_wrong,
+        "materialised_nodes_seen_per_setting": {k: sorted(v) for k, v in mats.items()}}
+    return fails
+
+
+# ------------------------------------------------------------------------------------------
+# judge
+# ------------------------------------------------------------------------------------------
 def judge(ctx, cases, exe, drv, broken, log, search=True):
     lines = [case_line(nw, sets, toks) for nw, sets, toks in cases]
     oc, fe, probe_msgs = probe(exe, os.path.join(ctx.dir, "run"))
     impl, model, rc1, rc2 = run_cases(exe, drv, lines, os.path.join(ctx.dir, "run"), (oc, fe))
     failing, known, diffs = [], [], []
     dist_size, dist_depth, dist_w, res_dist = {}, {}, {}, {"contracted_to_1": 0, "uncontracted": 0, "partial": 0}
+    dist_wset = {"all workers": 0, "sparse subset": 0, "single worker": 0}
+    policy = {}
+    ek_order = {}
     nsettings = 0
     for i, (nw, sets, toks) in enumerate(cases):
         il = impl[i] if i < len(impl) else "<no output>"
@@ -463,8 +795,11 @@ def judge(ctx, cases, exe, drv, broken, log, search=True):
         dist_size[b] = dist_size.get(b, 0) + 1
         dist_depth[depth] = dist_depth.get(depth, 0) + 1
         dist_w[nw] = dist_w.get(nw, 0) + 1
+        used = set(int(toks[j + 3]) for j in range(len(toks)) if toks[j] in ("o", "c", "w", "e"))
+        dist_wset["single worker" if len(used) == 1 and nw == 1 else "all workers" if used == set(range(nw)) else "sparse subset"] += 1
         nsettings += len(sets)
-        for (A, st, evs) in split_impl(il):
+        segs = split_impl(il)
+        for s_, (A, st, evs, cov) in zip(sets, segs) if len(segs) == len(sets) else []:
             a = parse_A(A)
             if a.get("mat") == "1":
                 res_dist["contracted_to_1"] += 1
@@ -472,20 +807,41 @@ def judge(ctx, cases, exe, drv, broken, log, search=True):
                 res_dist["uncontracted"] += 1
             else:
                 res_dist["partial"] += 1
-        o = oracle_case(sets, il, full_oc=oc, full_end=fe)
+            pc = policy.setdefault(policy_class(s_), {"recordings": 0, "fired": 0, "partly_contracted": 0, "contracted_subgraphs": 0,
+                                                       "contraction_below_the_closing_node": 0})
+            pc["recordings"] += 1
+            try:
+                col, inter, mat = int(cov.get("col", 0)), int(cov.get("interior", 0)), int(a.get("mat", 0))
+            except ValueError:
+                col = inter = mat = 0
+            pc["fired"] += col > 0
+            pc["partly_contracted"] += col > 0 and mat > 1
+            pc["contracted_subgraphs"] += col
+            pc["contraction_below_the_closing_node"] += inter > 0
+            oname = ORDERS.get(s_[7], "random-interleaving")
+            eo = ek_order.setdefault(oname, {})
+            for tok in evs:
+                h = tok.split("@")[0].split(":")
+                if len(h) == 5:
+                    eo[EKL.get(h[4], h[4])] = eo.get(EKL.get(h[4], h[4]), 0) + 1
+        o = oracle_case(sets, il, full_oc=oc, full_end=fe, toks=toks, nw=nw)
         if o and o[1]:
             known.append((lines[i], il, o[0]))
         elif o:
             failing.append((lines[i], il, o[0]))
-        d = correspondence(sets, il, ml)
+        d = correspondence(sets, il, ml, toks)
         if d:
             diffs.append((lines[i], il, ml, d))
+    real_fails = real_recordings(ctx, ctx.thorough)
     ctx.cov["correspondence"] = {
         "cases": len(cases), "recordings": nsettings, "disagreements": len(diffs), "oracle_failures": len(failing),
         "library_variant": {"other_cont_counted": oc, "end_edges_of_contracted_sections_reported": fe},
         "cases_showing_finding_%s" % KNOWN_ID: len(known),
-        "input_distribution": {"intervals": dist_size, "task_depth": dist_depth, "workers": dist_w},
+        "input_distribution": {"intervals": dist_size, "task_depth": dist_depth, "workers_told_to_dr_start": dist_w,
+                               "participating_workers": dist_wset},
         "impl_result_distribution": res_dist, "impl_exit": rc1, "model_exit": rc2}
+    ctx.cov["policy_coverage"] = policy
+    ctx.cov["in_edge_kind_by_driving_order"] = ek_order
     ctx.cov["evaluations"] = nsettings
     ctx.cov["distinct_nontrivial"] = len(set(" ".join(t) for _, _, t in cases if tree_stats(t)[0] > 1))
     for i in (0, len(cases) // 2, len(cases) - 1):
@@ -494,9 +850,11 @@ def judge(ctx, cases, exe, drv, broken, log, search=True):
                                        "model": (model[i] if i < len(model) else None or "")[:600]})
     ctx.cov["trusted_base"] += [
         "extraction: ExtrOcamlBasic only; ocaml/driver_C18.ml (parser of the case language, printing), ocaml/zio.ml",
-        "harness/c18_sim.c: serial simulator of multi-worker executions on the dr_*__ entry points, virtual clock through the "
-        "MYTH_VERIF hook g_dr_verif_clock, hooks of dr_options as interval stream, .stat parsed back",
-        "tools/props/c18.py: generator and the Python oracle (explicit DAG rebuilt from the hook stream)",
+        "harness/c18_sim.c: simulator of multi-worker executions on the recorder's public macro layer (work-first, help-first and "
+        "random interleavings at interval granularity), virtual clock through the MYTH_VERIF hook g_dr_verif_clock, hooks of "
+        "dr_options as interval stream, .stat parsed back; harness/c18_real.cc: a real mtbb / MassiveThreads program",
+        "tools/props/c18.py: generator, the expectation computed from the input tokens, and the Python oracle (explicit DAG rebuilt "
+        "from the hook stream)",
         "modelled, not verified: the instrumentation state machine that builds the tree from the calls (checked only by the "
         "correspondence run), 64-bit wrap of clock sums, est / t_ready / counters fields, dr_check debug assertions"]
     listed = any(f.get("id") == KNOWN_ID for f in vlib.known_findings("C18"))
@@ -512,10 +870,32 @@ def judge(ctx, cases, exe, drv, broken, log, search=True):
                            "level": "profiler public instrumentation API"}, found=True)
     elif listed:
         ctx.notes.append("finding %s is listed but no longer reproduces: full-strength oracle and the repaired model branch used" % KNOWN_ID)
+    # candidate defect in the default (list) mode of the recorder: deterministic witness, workers 0 and 3 of 4
+    lsets = [("none-array", 0, 0, 0, PRUNE_DEFAULT, 0, 0, 0, 1), ("none-list", 0, 0, 0, PRUNE_DEFAULT, 0, 0, 0, 0)]
+    lw = W_LIST.split()
+    limpl, _, _ = vlib.run_lines([exe, os.path.join(ctx.dir, "run")], [case_line(int(lw[0]), lsets, lw[1:])], timeout=120)
+    lsegs = split_impl(limpl[0]) if limpl else []
+    lres = [(sg[1].get("sedges"), sg[3].get("P")) for sg in lsegs]
+    ctx.cov["list_mode_witness"] = {"case": W_LIST, "array_mode(sedges,P)": lres[0] if lres else None,
+                                    "list_mode(sedges,P)": lres[1] if len(lres) > 1 else None}
+    if len(lres) == 2 and lres[0][0] != lres[1][0]:
+        msg = ("%s: without worker_specific_state_array (the default) and workers {0,3} of 4 taking part, .stat edge totals "
+               "(end,create,create_cont,wait_cont,other_cont) = %s with n_workers (P) = %s; with the array: %s" % (
+                   LIST_ID, lres[1][0], lres[1][1], lres[0][0]))
+        ctx.notes.append("candidate defect " + msg + "; the oracle is guarded for exactly this situation (list mode, a participating "
+                         "worker id above the number of participating workers); seen on %d generated case(s)"
+                         % sum(1 for k in known if k[2] == LIST_NOTE))
+        if any(f.get("id") == LIST_ID for f in vlib.known_findings("C18")):
+            ctx.known(msg)
     if failing:
         c, o, msg = min(failing, key=lambda f: len(f[0]))
         ctx.violation("oracle", msg, {"case": c, "observed": o[:4000], "expected": "see property C18: " + msg,
                                       "level": "profiler public instrumentation API", "all_failing": [f[2] for f in failing[:20]]}, found=True)
+    elif real_fails:
+        msg, obs = real_fails[0]
+        ctx.violation("oracle", msg, {"real": obs, "observed": obs.get("out", ""), "expected": "see property C18: " + msg,
+                                      "level": "real mtbb program on the real scheduler (harness/c18_real.cc)",
+                                      "all_failing": [f[0] for f in real_fails[:20]]}, found=True)
     elif diffs:
         found = search_failing(ctx, exe, drv) if search else None
         if found:
@@ -538,13 +918,35 @@ def judge(ctx, cases, exe, drv, broken, log, search=True):
         else:
             ctx.violation("proof", "theorem(s) no longer check: " + ", ".join(broken),
                           {"theorem_or_correspondence": ", ".join(broken), "log": getattr(ctx, "proof_log", log[-3000:])}, found=False)
+    # coverage gates: a run in which a contraction policy never fired, or an incoming edge kind never occurred under one
+    # of the driving orders, shows nothing about that policy / order
+    if not failing and not ctx.violations:
+        gaps = []
+        need = 40 if ctx.thorough else 12
+        for cls in ("span(collapse_max)", "span(uncollapse_min)", "count(collapse_max_count)", "target(node_count_target/prune_threshold)"):
+            pc = policy.get(cls, {})
+            if pc.get("fired", 0) < need or pc.get("partly_contracted", 0) < need:
+                gaps.append("policy %s fired on %d recordings (%d partly contracted), at least %d wanted" % (
+                    cls, pc.get("fired", 0), pc.get("partly_contracted", 0), need))
+        if policy.get("target(node_count_target/prune_threshold)", {}).get("contraction_below_the_closing_node", 0) < need:
+            gaps.append("target-size pruning contracted a subgraph below the closing node on fewer than %d recordings" % need)
+        for oname in ("work-first", "help-first", "random-interleaving"):
+            miss = [k for k in EK if ek_order.get(oname, {}).get(k, 0) < 5]
+            if miss:
+                gaps.append("incoming edge kinds %s hardly occur under the %s order" % (miss, oname))
+        if dist_wset["sparse subset"] < 10:
+            gaps.append("fewer than 10 trees with a sparse set of participating workers")
+        if gaps:
+            ctx.violation("coverage", "the run does not exercise what it claims: " + "; ".join(gaps),
+                          {"theorem_or_correspondence": "coverage gate of tools/props/c18.py", "gaps": gaps}, found=False)
     return ctx.finish(assumptions=[
         "interval lengths are non-negative (the clock does not run backwards) for the critical-path theorems",
         "sums of 64-bit clock differences do not wrap",
         "the execution is well nested: task ::= (section | other)* end, section ::= (section | create task | other)* wait",
-        "finding C18-stat-edges-lost: while it is present (probed on every run) the end / other_cont edge totals of the .stat "
-        "report are only required not to exceed the uncontracted DAG's and to be exact when nothing is contracted "
-        "(C18_edges_partial, C18_stat_edges_partial); once repaired the full-strength oracle and C18_edges / C18_stat_edges apply"])
+        "finding C18-stat-edges-lost (repaired in /repo by e6ceb89, 28d3a8a) is probed on every run: if it came back the end / "
+        "other_cont edge totals would only be required not to exceed the uncontracted DAG's (C18_edges_partial, "
+        "C18_stat_edges_partial) and the finding would be reported; absent, the full-strength oracle and C18_edges / "
+        "C18_stat_edges apply"])
 
 
 def search_failing(ctx, exe, drv):
@@ -556,7 +958,7 @@ def search_failing(ctx, exe, drv):
     best = None
     for i, (nw, sets, toks) in enumerate(cases):
         il = impl[i] if i < len(impl) else "<no output>"
-        o = oracle_case(sets, il, full_oc=oc, full_end=fe)
+        o = oracle_case(sets, il, full_oc=oc, full_end=fe, toks=toks, nw=nw)
         if o and not o[1]:
             if best is None or len(lines[i]) < len(best[0]):
                 best = (lines[i], il, o[0])
@@ -568,15 +970,24 @@ def run(ctx):
     exe, drv = build(ctx)
     cases = corpus_cases(ctx)
     if ctx.thorough:
-        cases += make_cases(ctx, 2500, [0, 1, 1, 2, 2, 2, 3])
+        cases += make_cases(ctx, 2200, [0, 1, 1, 2, 2, 2, 3])
     else:
-        cases += make_cases(ctx, 380, [0, 1, 1, 2, 2, 2])
+        cases += make_cases(ctx, 330, [0, 1, 1, 2, 2, 2])
     return judge(ctx, cases, exe, drv, broken, log)
 
 
 def replay(ctx, path):
     body = json.load(open(path))
     exe, drv = build(ctx)
+    if "real" in body:
+        obs = body["real"]
+        a = obs.get("cmd", "").split()
+        if len(a) >= 7:
+            st = (obs.get("setting", "?"),) + tuple(int(x) for x in a[1:6])
+            msg, o2 = real_run(ctx.real_exe, os.path.join(ctx.dir, "run"), int(a[0]), st, int(obs.get("workers", 1)), int(a[6]), "replay")
+            print("real recording:", o2)
+            print("oracle:", msg)
+        return 0
     if "case" not in body:
         print("no case in replay file (broken obligation: %s)" % body.get("theorem_or_correspondence"))
         return 0
@@ -586,11 +997,12 @@ def replay(ctx, path):
     impl, model, _, _ = run_cases(exe, drv, [c], os.path.join(ctx.dir, "run"), (oc, fe))
     w = c.split()
     nset = int(w[1])
-    sets = [("s%d" % k,) + tuple(int(x) for x in w[2 + 6 * k: 8 + 6 * k]) for k in range(nset)]
+    sets = [("s%d" % k,) + tuple(int(x) for x in w[2 + 8 * k: 10 + 8 * k]) for k in range(nset)]
+    toks = w[2 + 8 * nset:]
     print("case:  ", c)
     for k, seg in enumerate((impl[0] if impl else "").split(" | ")):
-        print("impl  [%s]: %s" % (sets[k][0] if k < len(sets) else "?", seg[:1500]))
+        print("impl  [%s %s]: %s" % (sets[k][0] if k < len(sets) else "?", policy_class(sets[k]) if k < len(sets) else "", seg[:1500]))
     print("model: ", model[0] if model else None)
-    print("oracle:", oracle_case(sets, impl[0] if impl else "<no output>", full_oc=oc, full_end=fe))
-    print("correspondence:", correspondence(sets, impl[0] if impl else "", model[0] if model else ""))
+    print("oracle:", oracle_case(sets, impl[0] if impl else "<no output>", full_oc=oc, full_end=fe, toks=toks, nw=int(w[0])))
+    print("correspondence:", correspondence(sets, impl[0] if impl else "", model[0] if model else "", toks))
     return 0
